@@ -19,4 +19,7 @@ def sets():
            ('C17', ['XMLDocParser.determine_documenting_index'], pyprops.NAMES, 'TREE_SCHEMA', 'TREE_INVARIANTS', [])]
     for pid, keys in pyprops.PROOFS.items():
         out.append((pid, keys, pyprops.NAMES + pyprops.MODULES_EXTRA.get(pid, []), 'TREE_SCHEMA', 'TREE_INVARIANTS', []))
+    for pid, extra in pyprops.EXTRA_SETS.items():
+        for n, (keys, mods) in enumerate(extra):
+            out.append(('%sx%d' % (pid, n), keys, mods, 'TREE_SCHEMA', 'TREE_INVARIANTS', []))
     return out
